@@ -4,7 +4,7 @@ SPEC = {
     "lean_modules": ["PallasVerif.Props.C44"],
     "required_theorems": ["bigint_exact", "bigint_small_as_int", "bigint_large_as_bytes", "bigint_result_fits", "u64_exact",
                           "u64_int_fits", "i64_exact", "datum_map_preserves", "unfixed_truncates_at_witness"],
-    "streams": [{"name": "u5c", "quick": 200, "thorough": 25000}],
+    "streams": [{"name": "u5c", "quick": 200, "thorough": 100000}],
     "rule": "file cases: blocks (*.block) and transactions (*.tx) of test_data through map_block / map_tx of BOTH schema versions "
             "(quick: a seed-dependent window of 36 of the files; thorough: all), every mapped hash / input / output address, coin, "
             "assets / fee / validity / output datum / witness datum re-extracted with pallas-traverse and compared. Generated cases: "
